@@ -28,4 +28,16 @@ CHECKS['C11'] = {'engine': 'EX', 'design_ref': 'DESIGN.md 6 C11',
     'technique': 'bounded exhaustive enumeration of reflection-coefficient lattices, all conversion pairs and compositions, against textbook step-up/step-down and dense normal equations',
     'text': 'For every reflection-coefficient vector of the lattice (orders to the bound, families to 16, real and complex) all six conversions, their compositions and round trips, LAR / inverse-sine bijections and LSF round trips are executed and compared with an independent reference.',
     'note': _EX_NOTE}
+CHECKS['C12'] = {'engine': 'EX', 'design_ref': 'DESIGN.md 6 C12',
+    'technique': 'bounded exhaustive enumeration of lattice data x every order against dense normal equations on a double-loop autocorrelation and dense least squares',
+    'text': 'Every non-zero lattice sequence of every length in the bound and fixed families to N=200, with every order 1..min(N-1,30): stability, normal equations on the reference biased autocorrelation, least-squares equivalence, lpc and pyule agreement.',
+    'note': _EX_NOTE}
+CHECKS['C13'] = {'engine': 'EX', 'design_ref': 'DESIGN.md 6 C13',
+    'technique': 'bounded exhaustive enumeration of lattice data x every order x every criterion; returned reflection coefficients replayed through a reference lattice filter (stage-wise minimiser), exact nesting',
+    'text': 'Every lattice sequence of every length in the bound and fixed families to N=200, every order, all six criteria: the returned coefficients are replayed through an independent lattice filter that recomputes each stage optimum; nesting and criterion results are compared bit for bit.',
+    'note': _EX_NOTE}
+CHECKS['C14'] = {'engine': 'EX', 'design_ref': 'DESIGN.md 6 C14',
+    'technique': 'bounded exhaustive enumeration of lattice data x every order and of every frequency subset (exact recovery) against explicit-loop data matrices and dense least squares',
+    'text': 'Every lattice sequence and fixed family with every admissible order: orthogonality of the residual, minimum energy, agreement of the fast recursions (per-sample normalisation); every p-subset of grid frequencies for exact recovery.',
+    'note': _EX_NOTE}
 NOT_BUILT = {}
